@@ -13,6 +13,7 @@ from .types import (
     TBool,
     TBytes,
     TInt,
+    TList,
     TMap,
     TOpt,
     TReal,
@@ -71,7 +72,7 @@ class BuiltinMixin:
                 self.oblige("attr", v.ty.is_some(v), node, "len(None)")
                 self.assume(v.ty.is_some(v))
                 v = v.ty.val(v)
-            if isinstance(v.ty, TSeq) or v.ty == TStr:
+            if isinstance(v.ty, (TSeq, TList)) or v.ty == TStr:
                 return v.length()
             if isinstance(v.ty, (TSet, TMap)):
                 s = v if isinstance(v.ty, TSet) else v.ty.dom(v)
@@ -281,6 +282,10 @@ class BuiltinMixin:
                 if len(args) > 2:
                     return args[2]
                 raise
+        if isinstance(obj, Extern):
+            h = self.extern_handler("getattr:" + obj.dotted)
+            if h is not None:
+                return h(self, args, kwargs, node, None)
         raise Unsupported("getattr with symbolic name")
 
     def bi_hasattr(self, args, kwargs, node):
@@ -331,7 +336,7 @@ class BuiltinMixin:
                 return list(v.items.keys())
             raise Unsupported("iteration over dict with conditional keys")
         if isinstance(v, SV):
-            if isinstance(v.ty, (TSeq, TSet, TMap)) or v.ty == TStr:
+            if isinstance(v.ty, (TSeq, TSet, TMap, TList)) or v.ty == TStr:
                 return v
             if isinstance(v.ty, TOpt):
                 raise Unsupported("iteration over optional")
@@ -390,6 +395,12 @@ class BuiltinMixin:
                 return self.map_method(selfv, name, args, kwargs, node, self_expr)
             if isinstance(ty, TSeq):
                 return self.seq_method(selfv, name, args, kwargs, node, self_expr)
+            if isinstance(ty, TList):
+                if name == "append":
+                    self._rebind(self_expr, ty.append(selfv, self._elem(args[0], ty.elem)), node)
+                    return None
+                if name == "copy":
+                    return selfv
         raise Unsupported(f"method {name} of {selfv!r}")
 
     def _rebind(self, self_expr, new, node):
@@ -460,6 +471,11 @@ class BuiltinMixin:
     def _elem(self, x, ety):
         if isinstance(x, (tuple, list)):
             return self.lift_like(x, ety)
+        if isinstance(x, SV) and isinstance(x.ty, TOpt) and not isinstance(ety, TOpt) and x.ty.elem == ety:
+            # None would be a different element: require a value (it is an obligation, not an assumption)
+            self.oblige("attr", x.ty.is_some(x), self.cur_node, "None stored where a value is required")
+            self.assume(x.ty.is_some(x))
+            return x.ty.val(x)
         return lift(x, ety)
 
     def _as_set(self, a, ty, node):
@@ -616,7 +632,15 @@ class BuiltinMixin:
         ty = s.ty
         if name == "append":
             x = self._elem(args[0], ty.elem)
-            self._rebind(self_expr, SV(z3.Concat(s.t, z3.Unit(x.t)), ty), node)
+            new = SV(z3.Concat(s.t, z3.Unit(x.t)), ty)
+            if ty != TStr and ty.elem.name != "Byte":
+                # theory-valid lemmas about nth over concat (z3's seq solver does not derive them under quantifiers)
+                i = z3.Int("i!app")
+                n = z3.Length(s.t)
+                self.st.pc.append(z3.Length(new.t) == n + 1)
+                self.st.pc.append(new.t[n] == x.t)
+                self.st.pc.append(z3.ForAll([i], z3.Implies(z3.And(i >= 0, i < n), new.t[i] == s.t[i]), patterns=[new.t[i]]))
+            self._rebind(self_expr, new, node)
             return None
         if name == "appendleft":
             x = self._elem(args[0], ty.elem)
